@@ -132,7 +132,6 @@ HeadsQuick == {<<"none", 0>>, <<"cmt", 2>>}
 HeadsAll == {<<"none", 0>>, <<"none", 1>>, <<"cmt", 0>>, <<"cmt", 2>>}
 HeadsBom == {<<"bom", 0>>, <<"bom", 1>>}
 CoreForms == {"defdoc2", "cls", "clsdoc1", "asg", "asgp3", "str1", "if", "else", "cmt", "init", "sasg"}
-               \cup (IF Deep THEN {"fromp4"} ELSE {})
 CleanForms == {"def", "defh2", "defdoc1", "defdoc2", "defdocp3", "defh2doc2", "adef", "def1l", "def1l2", "init",
                "cls", "clsh3", "clsdoc1", "clsdoc2", "cls1l",
                "asg", "asgp3", "asgs2", "asgs2c0", "asgb2", "ann", "ann0", "annp3", "tup", "chain", "semi",
